@@ -10,11 +10,18 @@ Relations
               histories may be empty, and run A may be made in a fresh interpreter.  Observed per run: the global
               state on entry, at the first draw, a hash over (function, state) of EVERY legacy np.random call,
               whether every change of the global generator went through such a call, other generators created,
-              the state on return, .bp bytes and the parsed VCF/BCF/PGEN content.
+              the state on return, .bp bytes and the parsed VCF/BCF/PGEN content.  A dozen cases of every run
+              (the quick tier included) make run A and run B in two fresh interpreters with DIFFERENT PYTHONHASHSEED
+              (one of them unset = random in a third): several chromosomes, 2-3 populations, POP / SAMPLE fields,
+              --no_replacement, every output format.
   phenotype : the same for simphenotype (histories: numpy disturbances, earlier simphenotype runs with other
               options on the same files, Genotypes / Haplotypes loads of them); observed: the state of
               PhenoSimulator.rng after construction and before/after every replicate, the noise vectors, what the
-              run did to the global generator, generators created, .pheno bytes.
+              run did to the global generator, generators created, .pheno bytes.  Effects / samples may be
+              requested by ID (--id, --ids-file, haplotype_ids as set / tuple / list; --sample, --samples-file):
+              equal Python sets are filled in different insertion orders in run A and run B; a dozen cases of every
+              run make the two runs in two fresh interpreters with different PYTHONHASHSEED (2-6 of 3-8 effects of a
+              .snplist / .hap requested, sample selections, variants on several contigs, 1-4 replications).
   replicates: one simphenotype run with 2-6 replications (simulate_pt or the CLI, seeds incl. 0 and none, with and
               without prevalence) with the simulator's public rng wrapped by a recorder; observed: the float noise
               vector every replicate drew, the columns of the written .pheno, the consecutive draws of a COPY of the
@@ -33,7 +40,7 @@ from .core import Relation, err_kind
 
 PROP = "C10"
 CLAIMED = True
-COQ_MODULES = ["Stats", "C10_Model", "C10_Check", "C10_Proofs", "C10_Process"]
+COQ_MODULES = ["Stats", "C10_Model", "C10_Check", "C10_Proofs", "C10_Process", "C10_Hash"]
 PROPERTY_MODULE = "C10_Property"
 ALLOWED_AXIOMS = []
 # Translation validation (harness/README.md): the two statements that turn --seed into a generator - the seed guard of
@@ -70,12 +77,16 @@ RULE = (
     "simgenotype: at least one admixed generation or >= 2 populations so that draws matter; "
     "simphenotype: >= 1 replicate with noise variance > 0, or the noise-free case/control class with tied "
     "liabilities and 0 < k < n cases; replicates: >= 2 replicates, every one observed with "
-    "noise variance > 0 and >= 2 samples. Distinct = distinct canonical JSON of the input."
+    "noise variance > 0 and >= 2 samples. Cases of the cross-interpreter stream (run A and run B in two fresh "
+    "interpreters with different PYTHONHASHSEED) count under the same rule. Distinct = distinct canonical JSON of the input."
 )
 TRUSTED = [
     "numpy's bit generators are deterministic functions of their state (the abstract generator of the model); "
     "generator states are compared through SHA-256 of get_state() / bit_generator.state",
-    "PYTHONHASHSEED is fixed per process by ./check; cross-process equality is not part of the quick tier",
+    "PYTHONHASHSEED is fixed (0) for the harness's own process by ./check; equality across interpreters with other "
+    "string-hash seeds is tested by the cross-interpreter stream (12 cases per relation and quick run, 96 + every "
+    "tenth case in thorough): /venv/bin/python subprocesses with explicit, different PYTHONHASHSEED values, one of the "
+    "two without the variable (random) in a third of the cases",
     "pysam / pgenlib return the stored records (content comparison of VCF/BCF/PGEN outputs); 'genotype content' = samples, "
     "variant records, alleles and phase in order, header meta lines as a multiset (the order of the ##contig lines that "
     "GenotypesVCF/GenotypesPLINK write follows set iteration, i.e. PYTHONHASHSEED, and is not counted as content)",
@@ -90,6 +101,9 @@ ASSUMPTIONS = [
     "genetic component + noise_k",
 ]
 SEEDS = [0, 1, 42, 2**32 - 1]
+# cases per run and relation (genotype, phenotype) in which run A and run B are made in two fresh interpreters with
+# different string-hash seeds (PYTHONHASHSEED), the quick tier included
+NXPROC = {"quick": 12, "thorough": 96}
 
 
 def sha(b):
@@ -433,6 +447,35 @@ def gen_gconfig(rng, wide=None):
     return c
 
 
+def gen_xgconfig(rng):
+    """the cross-interpreter class of simgenotype cases: run A and run B in two fresh interpreters whose string hashes
+    differ, on configurations where sets / dicts of strings are in play: several chromosomes, 2-3 populations, POP /
+    SAMPLE fields, --no_replacement, every output format"""
+    for _ in range(20):
+        c = gen_gconfig(rng)
+        if len(c["cfg"]["chroms"]) >= 2:
+            break
+    c.pop("fresh", None)
+    if c["seed"] is None:
+        c["seed"] = int(rng.choice(SEEDS))
+    r = rng.random()
+    c["pop_field"], c["sample_field"] = bool(r < 0.55), bool(0.35 < r < 0.8)
+    c["norepl"] = bool(rng.random() < 0.4)
+    c["only_bp"] = bool(rng.random() < 0.1)
+    cfg, seed = c["cfg"], c["seed"]
+    c["histA"] = [] if rng.random() < 0.5 else gen_ghist(rng, cfg, seed, False)
+    c["histB"] = [] if rng.random() < 0.4 else gen_ghist(rng, cfg, seed, bool(rng.random() < 0.5))
+    c["xproc"] = hash_seed_pair(rng)
+    return c
+
+
+def shrink_xproc(inp):
+    """a replay must not depend on chance: an interpreter without PYTHONHASHSEED (random) -> explicit values"""
+    if inp.get("xproc") and "random" in inp["xproc"]:
+        for pair in ([1, 2], [3, 4], [0, 5], [6, 7]):
+            yield dict(inp, xproc=pair)
+
+
 def gpar(inp):
     """the parameters of the simgenotype run under test"""
     cfg = inp["cfg"]
@@ -584,23 +627,49 @@ def one_grun(inp, d, tag, mode, ref, model):
     return res
 
 
-def run_in_subprocess(kind, inp, d, tag, mode, paths, hist, hashseed=None):
-    """one run, after its history, in a fresh interpreter (hashseed given: with its own PYTHONHASHSEED - outputs
-    must not depend on hash iteration order either)"""
+def start_subprocess(kind, inp, d, tag, mode, paths, hist, hashseed=None):
+    """start one run, after its history, in a fresh interpreter (hashseed: an integer = that PYTHONHASHSEED, "random" =
+    PYTHONHASHSEED unset, i.e. what a user's command line gets, None = the harness's own setting).  Job, result and
+    stderr travel through files of the case directory, so two such interpreters can run side by side"""
     import json
     import subprocess
     import sys
 
     job = {"kind": kind, "inp": inp, "d": d, "tag": tag, "mode": mode, "paths": paths, "hist": events(hist)}
     env = dict(os.environ)
-    if hashseed is not None:
+    if hashseed == "random":
+        env.pop("PYTHONHASHSEED", None)
+    elif hashseed is not None:
         env["PYTHONHASHSEED"] = str(hashseed)
-    p = subprocess.run([sys.executable, "-m", "harness.c10"], input=json.dumps(job), capture_output=True, text=True,
-                       env=env, cwd=os.path.dirname(os.path.dirname(os.path.abspath(__file__))), timeout=300)
-    for line in reversed(p.stdout.splitlines()):
+    base = os.path.join(d, f"job_{tag}")
+    with open(base + ".json", "w") as f:
+        json.dump(job, f)
+    fin, fout, ferr = open(base + ".json"), open(base + ".out", "w"), open(base + ".err", "w")
+    p = subprocess.Popen([sys.executable, "-m", "harness.c10"], stdin=fin, stdout=fout, stderr=ferr, env=env,
+                         cwd=os.path.dirname(os.path.dirname(os.path.abspath(__file__))))
+    return {"p": p, "base": base, "files": (fin, fout, ferr)}
+
+
+def finish_subprocess(h, timeout=300):
+    import json
+    import subprocess
+
+    try:
+        h["p"].wait(timeout=timeout)
+    except subprocess.TimeoutExpired:
+        h["p"].kill()
+        h["p"].wait()
+    for f in h["files"]:
+        f.close()
+    for line in reversed(open(h["base"] + ".out").read().splitlines()):
         if line.startswith("RESULT "):
             return json.loads(line[7:])
-    raise RuntimeError("subprocess run failed: " + p.stderr[-300:])
+    raise RuntimeError("subprocess run failed: " + open(h["base"] + ".err").read()[-300:])
+
+
+def run_in_subprocess(kind, inp, d, tag, mode, paths, hist, hashseed=None):
+    """one run, after its history, in a fresh interpreter"""
+    return finish_subprocess(start_subprocess(kind, inp, d, tag, mode, paths, hist, hashseed))
 
 
 def _subprocess_main():
@@ -625,9 +694,10 @@ def double_run(kind, inp, d, paths, one):
     mA, mB = {"py": ("py", "py"), "cli": ("cli", "cli"), "mixed": ("py", "cli")}[inp["mode"]]
     ctx = {"kind": kind, "inp": inp, "d": d, "paths": list(paths)}
     if inp.get("xproc"):
-        a = run_in_subprocess(kind, inp, d, "A", mA, list(paths), inp["histA"], inp["xproc"][0])
-        b = run_in_subprocess(kind, inp, d, "B", mB, list(paths), inp["histB"], inp["xproc"][1])
-        return a, b
+        # two fresh interpreters with DIFFERENT string-hash seeds (side by side: they share nothing but the inputs)
+        ha = start_subprocess(kind, inp, d, "A", mA, list(paths), inp["histA"], inp["xproc"][0])
+        hb = start_subprocess(kind, inp, d, "B", mB, list(paths), inp["histB"], inp["xproc"][1])
+        return finish_subprocess(ha), finish_subprocess(hb)
     if inp.get("fresh"):
         a = run_in_subprocess(kind, inp, d, "A", mA, list(paths), inp["histA"])
     else:
@@ -675,8 +745,14 @@ class GenotypeRel(Relation):
             if k < 2 * len(SEEDS):          # every named seed through both entry points, every run
                 c["seed"] = SEEDS[k % len(SEEDS)]
                 c["mode"] = "py" if k < len(SEEDS) else "cli"
-            if tier == "thorough" and k % 10 == 9:     # two fresh interpreters with different hash seeds
-                c["xproc"] = [int(rng.integers(1, 1000)), int(rng.integers(1001, 2000))]
+            x0 = 2 * len(SEEDS) + nwide
+            if x0 <= k < x0 + NXPROC[tier]:
+                # the cross-interpreter stream, every run: consecutive cases (= different workers)
+                c = gen_xgconfig(rng)
+                c["mode"] = ("cli", "py", "mixed")[(k - x0) % 3]
+                c["fmt"] = ("vcf", "pgen", "bcf", "vcf.gz")[(k - x0) % 4]
+            elif tier == "thorough" and k % 10 == 9:     # two fresh interpreters with different hash seeds
+                c["xproc"] = hash_seed_pair(rng)
                 c.pop("fresh", None)
             out.append(c)
         return out
@@ -720,6 +796,8 @@ class GenotypeRel(Relation):
                 out.append(k)
         if inp.get("xproc"):
             out.append("two-interpreters-different-PYTHONHASHSEED")
+            out.append("two-interpreters:" + ("one-PYTHONHASHSEED-unset(random)" if "random" in inp["xproc"] else "both-explicit"))
+            out.append(f"two-interpreters:chromosomes={min(len(inp['cfg']['chroms']), 4)}")
         if inp.get("fresh"):
             out.append("runA-in-fresh-interpreter")
         if inp["cfg"]["region"]:
@@ -746,6 +824,7 @@ class GenotypeRel(Relation):
     def shrink(self, inp):
         cfg = inp["cfg"]
         hA, hB = events(inp["histA"]), events(inp["histB"])
+        yield from shrink_xproc(inp)
         # histories first: the smallest witness is (nothing, one earlier call)
         if hA:
             yield dict(inp, histA=[])
@@ -788,7 +867,8 @@ class GenotypeRel(Relation):
         seed = inp["seed"]
         sk = "none" if seed is None else "0" if seed == 0 else "nonzero"
         same = isinstance(obs, dict) and "a" in obs and obs["a"]["out"] == obs["b"]["out"]
-        return f"simgenotype seed={sk}: outputs of two runs {'equal' if same else 'differ'}"
+        return (f"simgenotype seed={sk}: outputs of two runs {'equal' if same else 'differ'}"
+                + (" (two interpreters with different string-hash seeds)" if inp.get("xproc") and not same else ""))
 
 
 # ---------------------------------------------------------------------------
@@ -854,26 +934,155 @@ def gen_pconfig(rng, n=None, tied=False):
         c["prevalence"] = float(rng.choice([0.25, 0.5, 0.75]))
         if c["seed"] is None:
             c["seed"] = int(rng.choice(SEEDS))
+    if not tied and rng.random() < 0.3:
+        # a request for specific effects / samples: equal sets, filled in different insertion orders in the two runs
+        gen_selection(rng, c, pick_samples=bool(rng.random() < 0.4))
     c["histA"], c["histB"], fresh = gen_hist_pair(rng, lambda hap: gen_phist(rng, c, hap))
     if fresh:
         c["fresh"] = True
     return c
 
 
+def gen_selection(rng, c, kmin=1, pick_samples=False):
+    """request kmin..6 of the effects by ID (in an order of its own, not the file's) through --id / --ids-file /
+    haplotype_ids as set, tuple or list; optionally a subset of the samples as well"""
+    vids = variant_ids(c)
+    k = int(rng.integers(min(kmin, len(vids)), min(6, len(vids)) + 1))
+    c["ids"] = [vids[i] for i in rng.permutation(len(vids))[:k].tolist()]
+    c["ids_cli"] = str(rng.choice(["id", "file"]))
+    c["ids_py"] = str(rng.choice(["set", "set", "tuple", "list"]))
+    if pick_samples:
+        k = int(rng.integers(min(3, c["n"]), c["n"] + 1))
+        c["samples"] = [f"S{i}" for i in rng.permutation(c["n"])[:k].tolist()]
+        c["samples_cli"] = str(rng.choice(["sample", "file"]))
+        c["samples_py"] = str(rng.choice(["set", "set", "list"]))
+
+
+def gen_vids(rng, m):
+    """m distinct variant / haplotype IDs of the usual shapes"""
+    out = []
+    while len(out) < m:
+        r = rng.random()
+        x = (f"rs{int(rng.integers(1, 10**7))}" if r < 0.5 else f"H{int(rng.integers(0, 200))}" if r < 0.7
+             else f"hap_{'abcdefghij'[int(rng.integers(0, 10))]}{int(rng.integers(0, 50))}" if r < 0.85
+             else f"chr{int(rng.integers(1, 23))}_{int(rng.integers(1, 10**6))}_A_T")
+        if x not in out:
+            out.append(x)
+    return out
+
+
+def hash_seed_pair(rng):
+    """PYTHONHASHSEED of the two interpreters: different explicit values (0 = randomisation off, sometimes); in a third
+    of the pairs one interpreter gets no PYTHONHASHSEED at all (random, what a user's command line gets)"""
+    a = 0 if rng.random() < 0.15 else int(rng.integers(1, 2**32))
+    b = int(rng.integers(1, 2**32))
+    while b == a:
+        b = int(rng.integers(1, 2**32))
+    if rng.random() < 1 / 3:
+        return ["random", b] if rng.random() < 0.5 else [a, "random"]
+    return [a, b]
+
+
+def gen_xpconfig(rng):
+    """the cross-interpreter class of simphenotype cases: run A and run B in two fresh interpreters whose string
+    hashes differ, on inputs where the iteration order of a set / dict of strings could decide the output: 2-6 of
+    3-8 effects requested by ID (.snplist and .hap; --id, --ids-file, haplotype_ids as set / tuple / list), a sample
+    selection, variants on several contigs, several replications"""
+    c = gen_pconfig(rng)
+    for k in ("fresh",) + SELECTION_KEYS:
+        c.pop(k, None)
+    n, m = int(rng.integers(6, 13)), int(rng.integers(3, 9))
+    gts = []
+    for j in range(m):
+        col = [[int(rng.integers(0, 2)), int(rng.integers(0, 2))] for _ in range(n)]
+        col[j % n], col[(j + 1) % n] = [0, 0], [1, 1]
+        gts.append(col)
+    c.update(n=n, gts=gts, betas=[float(rng.choice([-0.3, -0.2, -0.1, 0.1, 0.15, 0.25, 0.3])) for _ in range(m)],
+             vids=gen_vids(rng, m), kind=str(rng.choice(["snplist", "snplist", "snplist", "hap", "hap"])),
+             reps=int(rng.integers(1, 5)))
+    if rng.random() < 0.5:
+        names = [str(x) for x in rng.permutation(["1", "2", "10", "21", "X", "chr7"])[:int(rng.integers(2, 4))]]
+        cuts = sorted(int(x) for x in rng.integers(0, m + 1, size=len(names) - 1))
+        c["contigs"] = [names[sum(1 for q in cuts if q <= j)] for j in range(m)]
+    if c["seed"] is None:
+        c["seed"] = int(rng.choice(SEEDS))
+    if c["prevalence"] == 0.0:
+        c["prevalence"] = 0.25
+    gen_selection(rng, c, kmin=2, pick_samples=bool(rng.random() < 0.5))
+    # histories inside the two interpreters: nothing, numpy only, or an earlier simphenotype run asking for OTHER IDs
+    hs = []
+    for _ in range(2):
+        r = rng.random()
+        h = [] if r < 0.4 else [np_event(rng)] if r < 0.7 else gen_phist(rng, c, True)
+        for e in h:
+            if e.get("k") == "simpt" and "par" in e and rng.random() < 0.7:
+                vids = c["vids"]
+                e["par"]["ids"] = [vids[i] for i in rng.permutation(m)[:int(rng.integers(1, m + 1))].tolist()]
+        hs.append(h)
+    c["histA"], c["histB"] = hs
+    c["xproc"] = hash_seed_pair(rng)
+    return c
+
+
 def ppar(inp):
     """the options of the simphenotype run under test"""
-    return {k: inp[k] for k in ("reps", "environment", "heritability", "prevalence", "normalize", "seed")}
+    par = {k: inp[k] for k in ("reps", "environment", "heritability", "prevalence", "normalize", "seed")}
+    for k in SELECTION_KEYS:          # requested effect IDs / samples and how they are handed over (absent: all)
+        if inp.get(k) is not None:
+            par[k] = inp[k]
+    return par
 
 
-def call_simphenotype(par, out, mode, gt, hp):
-    """haptools simphenotype with the options par through simulate_pt or the command line"""
+SELECTION_KEYS = ("ids", "ids_cli", "ids_py", "samples", "samples_cli", "samples_py")
+
+
+def insertion_order(items, second):
+    """the order in which a Python set of the items is filled: as listed for run A; for run B an order whose
+    resulting set ITERATES differently in this process when there is one (two of the strings collide in the hash
+    table), else the reverse - the two sets are equal (s1 == s2), i.e. the same input"""
+    import itertools
+
+    items = list(items)
+    if not second or len(items) < 2:
+        return items
+
+    def filled(order):
+        s = set()
+        for x in order:
+            s.add(x)
+        return list(s)
+    first = filled(items)
+    if len(items) <= 6:
+        for perm in itertools.permutations(items):
+            if list(perm) != items and filled(perm) != first:
+                return list(perm)
+    return items[::-1]
+
+
+def as_container(items, kind, second):
+    """the requested IDs / samples as the Python object handed to simulate_pt.  Sets (the documented type) are filled
+    in another insertion order for the second run; a tuple / list is the same object both times"""
+    if kind == "set":
+        s = set()
+        for x in insertion_order(items, second):
+            s.add(x)
+        return s
+    return tuple(items) if kind == "tuple" else list(items)
+
+
+def call_simphenotype(par, out, mode, gt, hp, second=False):
+    """haptools simphenotype with the options par through simulate_pt or the command line.  second: this is run B
+    (equal sets of requested IDs / samples are filled in another insertion order; the command line is the same)"""
     from pathlib import Path
 
+    ids, samples = par.get("ids"), par.get("samples")
     if mode == "py":
         import haptools.sim_phenotype as sp
 
+        py_ids = None if ids is None else as_container(ids, par.get("ids_py", "set"), second)
+        py_samples = None if samples is None else as_container(samples, par.get("samples_py", "set"), second)
         sp.simulate_pt(Path(gt), Path(hp), par["reps"], par["environment"], par["heritability"], par["prevalence"],
-                       par["normalize"], None, None, None, None, None, par["seed"], Path(out), None)
+                       par["normalize"], None, py_samples, py_ids, None, None, par["seed"], Path(out), None)
         return
     from click.testing import CliRunner
     from haptools.__main__ import main
@@ -885,9 +1094,36 @@ def call_simphenotype(par, out, mode, gt, hp):
         if par[key] is not None:
             args += [opt, str(par[key])]
     args.append("--normalize" if par["normalize"] else "--no-normalize")
+    for items, how, opt, fopt in ((ids, par.get("ids_cli", "id"), "--id", "--ids-file"),
+                                  (samples, par.get("samples_cli", "sample"), "--sample", "--samples-file")):
+        if items is None:
+            continue
+        if how == "file":
+            path = out + fopt.replace("-", "_") + ".txt"
+            with open(path, "w") as f:
+                f.write("".join(x + "\n" for x in items))
+            args += [fopt, path]
+        else:
+            for x in items:
+                args += [opt, x]
     r = CliRunner().invoke(main, args, catch_exceptions=True)
     if r.exception is not None and not (isinstance(r.exception, SystemExit) and r.exit_code == 0):
         raise r.exception
+
+
+def variant_ids(inp):
+    return inp.get("vids") or [f"H{j}" for j in range(len(inp["gts"]))]
+
+
+def used_betas(inp):
+    """the effect sizes of the effects the run uses (all of them, or the requested IDs)"""
+    if inp.get("ids") is None:
+        return list(inp["betas"])
+    return [b for v, b in zip(variant_ids(inp), inp["betas"]) if v in inp["ids"]]
+
+
+def n_used(inp):
+    return inp["n"] if inp.get("samples") is None else len(set(inp["samples"]) & {f"S{j}" for j in range(inp["n"])})
 
 
 def write_pinputs(inp, d):
@@ -895,13 +1131,17 @@ def write_pinputs(inp, d):
 
     n = inp["n"]
     samples = [f"S{j}" for j in range(n)]
+    vids = variant_ids(inp)
+    contigs = inp.get("contigs") or ["1"] * len(inp["gts"])      # per variant, in blocks
     p = os.path.join(d, "g.vcf")
     with open(p, "w") as f:
-        f.write("##fileformat=VCFv4.2\n##contig=<ID=1>\n")
+        f.write("##fileformat=VCFv4.2\n")
+        for c in dict.fromkeys(contigs):
+            f.write(f"##contig=<ID={c}>\n")
         f.write('##FORMAT=<ID=GT,Number=1,Type=String,Description="Genotype">\n')
         f.write("#CHROM\tPOS\tID\tREF\tALT\tQUAL\tFILTER\tINFO\tFORMAT\t" + "\t".join(samples) + "\n")
         for j, col in enumerate(inp["gts"]):
-            f.write(f"1\t{100 + 10 * j}\tH{j}\tA\tT\t.\t.\t.\tGT\t" + "\t".join(f"{a}|{b}" for a, b in col) + "\n")
+            f.write(f"{contigs[j]}\t{100 + 10 * j}\t{vids[j]}\tA\tT\t.\t.\t.\tGT\t" + "\t".join(f"{a}|{b}" for a, b in col) + "\n")
     pysam.tabix_compress(p, p + ".gz", force=True)
     pysam.tabix_index(p + ".gz", preset="vcf", force=True)
     gt = p + ".gz"
@@ -917,13 +1157,13 @@ def write_pinputs(inp, d):
         hp = os.path.join(d, "e.snplist")
         with open(hp, "w") as f:
             for j, b in enumerate(inp["betas"]):
-                f.write(f"H{j}\t{b}\n")
+                f.write(f"{vids[j]}\t{b}\n")
     else:
         hp = os.path.join(d, "e.hap")
         with open(hp, "w") as f:
             f.write("#\tversion\t0.2.0\n#H\tbeta\t.2f\tEffect size in linear model\n")
             for j, b in enumerate(inp["betas"]):
-                f.write(f"H\t1\t{100 + 10 * j}\t{101 + 10 * j}\tH{j}\t{b:.2f}\n")
+                f.write(f"H\t{contigs[j]}\t{100 + 10 * j}\t{101 + 10 * j}\t{vids[j]}\t{b:.2f}\n")
     return gt, hp
 
 
@@ -967,7 +1207,7 @@ def one_prun(inp, d, tag, mode, gt, hp):
     cls.__init__, cls.run = init2, run2
     rec = FirstDraw()
     try:
-        call_simphenotype(ppar(inp), out, mode, gt, hp)
+        call_simphenotype(ppar(inp), out, mode, gt, hp, second=(tag == "B"))
     except BaseException as e:  # noqa
         res["err"] = {"cls": type(e).__name__, "kind": err_kind(e) if isinstance(e, Exception) else 10, "msg": str(e)[:160]}
     finally:
@@ -995,7 +1235,7 @@ def expect_noise(inp):
     """is the variance of the noise term > 0 for these options (sim_phenotype.PhenoSimulator.run)?"""
     her, env = inp["heritability"], inp["environment"]
     if her is None and env is None:
-        return sum(b * b for b in inp["betas"]) < 1
+        return sum(b * b for b in used_betas(inp)) < 1
     h = her if her is not None else 0.5
     return (env is None or env > 0) and h < 1
 
@@ -1046,14 +1286,26 @@ class PhenotypeRel(Relation):
                 wide = WIDE_P[int(rng.integers(0, len(WIDE_P)))] if tier == "quick" else WIDE_P[k - ns - self.NTIED]
                 c = gen_pconfig(rng, n=wide)
                 c["gts"], c["betas"] = c["gts"][:1], c["betas"][:1]
+                if c.get("ids") is not None:      # only IDs that are still there (an absent ID is C09's business)
+                    c["ids"] = [x for x in c["ids"] if x in variant_ids(c)] or variant_ids(c)
             else:
                 c = gen_pconfig(rng)
             if k < ns:
                 c["seed"] = SEEDS[k % len(SEEDS)]
                 c["mode"] = "py" if k < len(SEEDS) else "cli"
                 c["reps"] = max(c["reps"], 2)
-            if tier == "thorough" and k % 10 == 9:
-                c["xproc"] = [int(rng.integers(1, 1000)), int(rng.integers(1001, 2000))]
+            x0 = ns + self.NTIED + nwide
+            if x0 <= k < x0 + NXPROC[tier]:
+                # the cross-interpreter stream, every run: consecutive cases (= different workers)
+                c = gen_xpconfig(rng)
+                c["mode"] = ("cli", "py", "cli", "mixed")[(k - x0) % 4]
+                if k - x0 < 3:          # .snplist with >= 3 requested IDs through each way of asking, every run
+                    c["kind"] = "snplist"
+                    while len(c["ids"]) < 3:
+                        gen_selection(rng, c, kmin=3)
+                    c["ids_cli"], c["ids_py"] = ("id", "set") if k - x0 < 2 else ("file", "set")
+            elif tier == "thorough" and k % 10 == 9:
+                c["xproc"] = hash_seed_pair(rng)
                 c.pop("fresh", None)
             out.append(c)
         return out
@@ -1077,7 +1329,7 @@ class PhenotypeRel(Relation):
         """must the replicates of this run differ?  quantitative trait: the columns of the written file are
         compared (noise variance > 0 by the options); case/control: the recorded noise vectors are (two 0/1
         columns may coincide legitimately), when the recorder saw them"""
-        if r["err"] is not None or inp["n"] < 2:
+        if r["err"] is not None or n_used(inp) < 2:
             return False
         if inp["prevalence"] is None:
             return expect_noise(inp) and len(r["cols"]) == inp["reps"]
@@ -1121,6 +1373,22 @@ class PhenotypeRel(Relation):
             out.append(f"width:n={inp['n']}")
         if inp.get("fresh"):
             out.append("runA-in-fresh-interpreter")
+        x = "two-interpreters:" if inp.get("xproc") else ""
+        if inp.get("xproc"):
+            out.append("two-interpreters-different-PYTHONHASHSEED")
+            out.append(x + ("one-PYTHONHASHSEED-unset(random)" if "random" in inp["xproc"] else "both-explicit"))
+            out.append(x + "effects=" + inp["kind"])
+        if inp.get("ids") is not None:
+            how = {"py": ["py-" + inp.get("ids_py", "set")], "cli": ["cli-" + inp.get("ids_cli", "id")],
+                   "mixed": ["py-" + inp.get("ids_py", "set"), "cli-" + inp.get("ids_cli", "id")]}[inp["mode"]]
+            out.append(x + f"ids-requested={len(inp['ids'])}" if len(inp["ids"]) < 4 else x + "ids-requested>=4")
+            out += [x + "ids-via-" + h for h in how]
+            if "py-set" in how and inp["mode"] == "py" and len(inp["ids"]) > 1:
+                out.append("equal-id-sets-filled-in-different-insertion-order")
+        if inp.get("samples") is not None:
+            out.append(x + "samples-requested")
+        if inp.get("contigs"):
+            out.append(x + f"contigs={len(set(inp['contigs']))}")
         hA, hB = has_haptools_event(inp["histA"]), has_haptools_event(inp["histB"])
         out.append("history:A=" + ("haptools-calls" if hA else "numpy-only" if events(inp["histA"]) else "empty")
                    + ",B=" + ("haptools-calls" if hB else "numpy-only" if events(inp["histB"]) else "empty"))
@@ -1137,23 +1405,46 @@ class PhenotypeRel(Relation):
 
     def shrink(self, inp):
         hA, hB = events(inp["histA"]), events(inp["histB"])
+        yield from shrink_xproc(inp)
         if hA:
             yield dict(inp, histA=[])
+        if hB and inp.get("xproc"):
+            yield dict(inp, histB=[])
         for h, key in ((hA, "histA"), (hB, "histB")):
             if len(h) > 1:
                 for j in range(len(h)):
                     yield dict(inp, **{key: h[:j] + h[j + 1:]})
         if inp.get("fresh"):
             yield {k: v for k, v in inp.items() if k != "fresh"}
+        if inp.get("samples") is not None:
+            yield {k: v for k, v in inp.items() if k not in ("samples", "samples_cli", "samples_py")}
+        if inp.get("contigs"):
+            yield {k: v for k, v in inp.items() if k != "contigs"}
+        ids = inp.get("ids")
+        if ids is not None:
+            for j in range(len(ids)):
+                if len(ids) > 1:
+                    yield dict(inp, ids=ids[:j] + ids[j + 1:])
+            yield {k: v for k, v in inp.items() if k not in ("ids", "ids_cli", "ids_py")}
         if inp["mode"] != "py":
             yield dict(inp, mode="py")
         if inp["fmt"] != "vcf.gz":
             yield dict(inp, fmt="vcf.gz")
         if inp["reps"] > 1:
             yield dict(inp, reps=inp["reps"] - 1)
-        if len(inp["gts"]) > 1:
-            yield dict(inp, gts=inp["gts"][:-1], betas=inp["betas"][:-1])
-        if inp["n"] > 4:
+        vids = variant_ids(inp)
+        for j in range(len(inp["gts"]) - 1, -1, -1):
+            # drop a variant that is not asked for (the last one first)
+            if len(inp["gts"]) > 1 and (ids is None or vids[j] not in ids):
+                cut = lambda xs: xs[:j] + xs[j + 1:]
+                c = dict(inp, gts=cut(inp["gts"]), betas=cut(inp["betas"]))
+                if inp.get("vids"):
+                    c["vids"] = cut(inp["vids"])
+                if inp.get("contigs"):
+                    c["contigs"] = cut(inp["contigs"])
+                yield c
+                break
+        if inp["n"] > 4 and inp.get("samples") is None:
             yield dict(inp, n=inp["n"] - 1, gts=[col[:-1] for col in inp["gts"]])
         for k in ("heritability", "environment", "prevalence"):
             if inp[k] is not None:
@@ -1181,6 +1472,7 @@ class PhenotypeRel(Relation):
                 ns = self._cols(r, inp)
                 copies = copies or (self._noisy(r, inp) and len(set(ns)) < len(ns))
         return (f"simphenotype seed={sk}: outputs of two runs {'equal' if same else 'differ'}"
+                + (" (two interpreters with different string-hash seeds)" if inp.get("xproc") and not same else "")
                 + ("; replicates are copies of each other" if copies else ""))
 
 
@@ -1321,7 +1613,8 @@ def run_replicates(inp):
 
 def gen_rconfig(rng, n=None):
     c = gen_pconfig(rng)
-    c.pop("fresh", None)
+    for k in ("fresh",) + SELECTION_KEYS:
+        c.pop(k, None)
     wide = n is not None
     n = int(rng.integers(3, 9)) if n is None else n
     c["n"] = n
@@ -1606,7 +1899,18 @@ LEVEL_TEXT = (
     "single runs with 2-6 replications whose recorded float noise vectors, written columns and zero-noise genetic "
     "component are checked inside Coq: column_k - noise_k is one vector for all k (case/control: the cases are a top "
     "set of genetic + noise_k), noise_k pairwise different, and (agreement) noise_k = the k-th consecutive draw of a "
-    "copy of the simulator's generator, column_k = fl(genetic + noise_k) bit for bit."
+    "copy of the simulator's generator, column_k = fl(genetic + noise_k) bit for bit. "
+    "The interpreter's string-hash seed (PYTHONHASHSEED: a user's two runs are two interpreters whose sets of "
+    "strings iterate in different orders) is one more component of the process model: it is fixed for the life of "
+    "an interpreter (C10_hash_seed_fixed_per_interpreter); a seeded command whose simulation is store-blind and "
+    "HASH-BLIND gives the same output and generator state in any two interpreters after any two histories "
+    "(C10_seeded_across_interpreters; every drawing program of the first part: C10_lifted_across_interpreters), and "
+    "only if (C10_across_interpreters_needs_hash_blind); simulate_pt's selection of requested effects by MEMBERSHIP "
+    "(file order) is proved blind to hash seed and insertion order for every order-function that keeps the elements "
+    "(C10_select_file_order_hash_blind, C10_simphenotype_across_interpreters), selection in the iteration order of "
+    "the set of requested IDs is refuted on a toy order (C10_set_order_refuted). Tied to /repo on every run by a "
+    "dozen double runs per relation whose two runs are made in two fresh interpreters with different PYTHONHASHSEED "
+    "and, inside one process, by equal Python sets of requested IDs / samples filled in different insertion orders."
 )
 LEVEL_NOTE = (
     "Partial: numpy's generators are an abstract deterministic state machine (their determinism is trusted); "
@@ -1633,7 +1937,19 @@ LEVEL_NOTE = (
     "the global generator outside a recorded call, no np.random.default_rng / RandomState / Generator / stdlib random use inside "
     "simgenotype and exactly one default_rng inside simphenotype; a generator obtained in another way - a C "
     "extension, numpy.random._generator imported directly - would only show through differing outputs), not by proof; "
-    "hash-iteration determinism relies on PYTHONHASHSEED."
+    "that the output never follows the iteration order of a set of strings - the hypothesis hash_blind of "
+    "C10_seeded_across_interpreters, proved necessary and sufficient for reproducibility across interpreters - is not "
+    "proved of the code either (only the one selection statement of simulate_pt's .snplist branch is modelled, as "
+    "select_file_order): 'hash-blind' is exactly what the cross-interpreter stream tests - run A and run B in two fresh "
+    "/venv/bin/python interpreters with different PYTHONHASHSEED (one unset = random in a third of them), same seed and "
+    "inputs, on the input classes where sets / dicts of strings are in play (2-6 effects requested by ID from a "
+    ".snplist or .hap through --id / --ids-file / haplotype_ids, sample selections, several chromosomes / contigs, "
+    "populations, POP / SAMPLE fields, --no_replacement, replications), 12 cases per relation in quick; an order "
+    "dependence that needs another input class (e.g. --repeats, --region with IDs, > 6 requested IDs) is not "
+    "exercised, and two given hash seeds order a given handful of k strings alike with probability ~1/k!; for PGEN "
+    "(and VCF header) output the ORDER of the ##contig lines follows PYTHONHASHSEED on the unchanged tree "
+    "(fixes/C10_contig_order.patch, pending): the property asks for identical genotype content there, so holds "
+    "compares meta lines as a multiset."
 )
 TECHNIQUE = "Coq proof over an abstract generator (Section variables) + vm_compute-evaluated double-run correspondence"
 
